@@ -13,3 +13,9 @@ pub use crate::util::object_forwarding::{
 pub fn forwarding_bits_offset_in_forwarding_pointer<VM: crate::vm::VMBinding>() -> Option<isize> {
     crate::util::object_forwarding::forwarding_bits_offset_in_forwarding_pointer::<VM>()
 }
+
+/// Address of the side-metadata byte that holds `spec`'s bits for the data address `addr`
+/// (seam b: the harness arms the scheduling points on exactly that byte).
+pub fn side_meta_address(spec: &crate::util::metadata::side_metadata::SideMetadataSpec, addr: crate::util::Address) -> crate::util::Address {
+    crate::util::metadata::side_metadata::address_to_meta_address(spec, addr)
+}
